@@ -6,8 +6,12 @@ TYPES = ["a", "b"]
 INVS = ["AtMostOnce", "RightAgent", "RightStep", "InOrder", "ExactlyOnce", "DueInTime", "QueueClean", "UniqueIds", "TypeMapExact"]
 
 
-def consts(maxids, maxev, maxsteps, dt100, delays, ops):
-    return dict(Types='{"a","b"}', Vals='{2}', Spawn='[t \\in {"a","b"} |-> <<>>]', Configs='{<< <<"a",1,2>>, <<"b",1,2>> >>}',
+SPAWN_TLA = '[t \\in {"a","b"} |-> IF t = "a" THEN <<"b">> ELSE <<>>]'     # an agent of type a creates a b in its initialize()
+SPAWN = {"a": ["b"]}
+
+
+def consts(maxids, maxev, maxsteps, dt100, delays, ops, spawn='[t \\in {"a","b"} |-> <<>>]'):
+    return dict(Types='{"a","b"}', Vals='{2}', Spawn=spawn, Configs='{<< <<"a",1,2>>, <<"b",1,2>> >>}',
                 MaxIds=str(maxids), MaxEvents=str(maxev), MaxSteps=str(maxsteps), Delays=delays, Dt100=str(dt100),
                 RunSpecs='{}', MaxPlans='0', PlanAhead='1', Ops=ops)
 
@@ -38,23 +42,32 @@ def run(tier, replay_file=None):
             if cv.coverage.get(must, (0, 0))[1] == 0:
                 raise common.Machinery("action %s never taken in the exhaustive run (vacuous)" % must)
     # 2. spec -> code
-    sets = []   # (histories, dt100)
+    sets = []   # (histories, dt100, spawn)
     hs, _ = gen.histories("Abm", consts(3, 2, 3, 100, '{0,100}', '{"Create","Delete","Send","RunStep"}'), 4 if quick else 5)
-    sets.append((hs, 100))
+    sets.append((hs, 100, None))
     R.cov["bfs_histories"] = len(hs)
+    # populations whose agent list is not in id order: an agent that creates other agents in its initialize() gets the lower id
+    # but is appended after them
+    hs2, _ = gen.histories("Abm", consts(4, 2, 3, 100, '{0,100}', '{"Create","Delete","Send","RunStep"}', spawn=SPAWN_TLA), 4)
+    sets.append((hs2 if not quick else __import__("random").Random(common.seed()).sample(hs2, min(len(hs2), 1500)), 100, SPAWN))
+    R.cov["bfs_histories_nested_creation"] = len(hs2)
     nsim = 0
     menus = [(100, '{0,100,200,300}'), (50, '{0,30,50,70,100,150}'), (10, '{0,10,20,30,70,100}'),
              (25, '{0,25,50,60,75,100}'), (20, '{0,20,40,60,100}')]
     for k, (dt, delays) in enumerate(menus[:3] if quick else menus):
         h2, _ = gen.histories("Abm", consts(8, 12, 40, dt, delays, OPS_ALL), 24 if quick else 40,
                               simulate=25 if quick else 600, seed=common.seed() * 10 + k + 1, cache=False)
-        sets.append((h2, dt))
+        sets.append((h2, dt, None))
         nsim += len(h2)
+    h3, _ = gen.histories("Abm", consts(10, 12, 40, 50, '{0,30,50,100}', OPS_ALL, spawn=SPAWN_TLA), 24 if quick else 40,
+                          simulate=25 if quick else 400, seed=common.seed() * 10 + 9, cache=False)
+    sets.append((h3, 50, SPAWN))
+    nsim += len(h3)
     R.cov["sim_histories"] = nsim
     handled_total, n_ops = 0, {}
-    for hists, dt in sets:
+    for hists, dt, spawn in sets:
         for hist in hists:
-            bad = abm_replay.replay(hist, TYPES, dt, 2, {"q", "handled"})
+            bad = abm_replay.replay(hist, TYPES, dt, 2, {"q", "handled"}, spawn=spawn)
             R.add("traces_validated_against_impl")
             for h in hist:
                 n_ops[h["op"]] = n_ops.get(h["op"], 0) + 1
